@@ -59,7 +59,7 @@ def volume_to_precomputed_pyramid(volume_filename,
         logger.error(f"Cannot write info: {exc}")
         return 1
     volume_reader.nibabel_image_to_precomputed(
-        img, precomputed_writer,
+        volume_reader.unpack_rgb_image(img), precomputed_writer,
         ignore_scaling, input_min, input_max,
         load_full_volume, options
     )
